@@ -301,7 +301,9 @@ pub fn extract_tls_signature_from_client_hello(
                         }
                         TlsExtension::ALPN(alpn_list) => {
                             if let Some(protocol) = alpn_list.first() {
-                                alpn = std::str::from_utf8(protocol).ok().map(str::to_owned);
+                                // ALPN protocol names are opaque bytes: keep a non-UTF-8 first value
+                                // (lossily) instead of reporting that there is no ALPN at all.
+                                alpn = Some(String::from_utf8_lossy(protocol).into_owned());
                             }
                         }
                         TlsExtension::SignatureAlgorithms(sig_algs) => {
